@@ -18,7 +18,6 @@
   the thorough tier) and the C07 twin-run oracle.
 -/
 import CatVerif.Proofs.RoundTrip
-import CatVerif.Proofs.Steps.Format
 namespace Cat
 open Spec
 
@@ -59,23 +58,5 @@ theorem C07_signed_pattern (bits raw : Nat) (hb : bits = 8 ∨ bits = 16 ∨ bit
 /-- non-vacuity: INT32_MIN round-trips -/
 example : fmtInt (-2147483648) = [45, 50, 49, 52, 55, 52, 56, 51, 54, 52, 56] := by
   simp [fmtInt, decDigits]
-
-/-- one step of the automatic READ response — the variable's read callback, the formatter chosen by the
-variable's type, the advance to the next variable, then the read handler or the line is sent — is the
-function whose statements are re-recognised in `format_read_args` of the source on every run
-(translator item T17) -/
-theorem C07_format_step_generated (D : Desc) (s : St) (f : Fsm) (i : SvcIn) :
-    formatReadArgs D s f i = Gen.format_read_args D s f i :=
-  formatReadArgs_generated D s f i
-
-/-- the counters this property's theorems keep as unbounded natural numbers (`var_num`, `position`, `index`, `position`, `data_size`) are declared
-`size_t` in `cat.h` — 64 bits on the target, so they cannot wrap on any buffer, table or line that exists; the widths
-are read from the struct declarations on every run (translator item T21) -/
-theorem C07_counters_unbounded :
-    Gen.width_cmd_var_num = 64 ∧
-    Gen.width_obj_position = 64 ∧
-    Gen.width_uns_index = 64 ∧
-    Gen.width_uns_position = 64 ∧
-    Gen.width_var_data_size = 64 := by decide
 
 end Cat
